@@ -36,8 +36,13 @@ def structure_items(repo):
     """Facts about the shape of workspace_init, matched on the syntax tree with the local names bound by the match
     (renaming a local or reordering independent statements does not change the verdict)."""
     items = []
+    from pyvc import shape
     fw = repo.func(f"{LS}.workspace_init")
-    body = fw.node.body
+    # statement-level calls of helper methods of the server are followed once (the call stays, its body follows it)
+    prefix = f"{LS}."
+    methods = {q[len(prefix):]: f.node for q, f in repo.all_functions() if q.startswith(prefix) and "." not in q[len(prefix):]}
+    expanded = shape.expand_helpers(fw.node, methods)
+    body = expanded.body
 
     def call_name(n):
         return ast.unparse(n.func) if isinstance(n, ast.Call) else None
@@ -86,20 +91,20 @@ def structure_items(repo):
     order = [i_pool, i_req, i_close, i_join, i_merge]
     ok = all(i is not None for i in order) and order == sorted(order) and len(set(order)) == len(order)
     items.append(Item("C15/LangServer.workspace_init/ensures.merge_in_file_list_order", "proved" if ok else "refuted",
-                      "structural", 0.0, where=fw.where(), mode="table", func=fw.qualname,
+                      "structural", 0.0, where=fw.where(), mode="table", func=fw.qualname, shape=True,
                       detail="results are requested in a loop over the file list, the pool is closed and joined, then the results are "
                              "merged in insertion (= file-list) order: the completion order of the workers is not observable",
                       witness=None if ok else {"statement_positions(pool, request loop, close, join, merge loop)": order}))
     ok = bool(index_writes) and set(index_writes) == {i_merge}
     items.append(Item("C15/LangServer.workspace_init/modifies.index_written_by_merge_loop_only", "proved" if ok else "refuted",
-                      "structural", 0.0, where=fw.where(), mode="table", func=fw.qualname,
+                      "structural", 0.0, where=fw.where(), mode="table", func=fw.qualname, shape=True,
                       detail="self.workspace and self.obj_tree are written by the merge loop only (main process, after join)",
                       witness=None if ok else {"writer_statements": index_writes, "merge_loop": i_merge}))
-    txt = ast.unparse(fw.node)
+    txt = ast.unparse(expanded)
     two_phase = all(i is not None for i in (i_merge, i_inc, i_bump, i_link)) and i_merge < i_inc < i_bump < i_link \
         and txt.count("resolve_links(") == 1 and txt.count("resolve_includes(") == 1
     items.append(Item("C15/LangServer.workspace_init/ensures.links_after_complete_index", "proved" if two_phase else "refuted",
-                      "structural", 0.0, where=fw.where(), mode="table", func=fw.qualname,
+                      "structural", 0.0, where=fw.where(), mode="table", func=fw.qualname, shape=True,
                       detail="includes, then one link_version bump, then links, each over every file and only after the last file "
                              "was merged: no link is resolved against a partial index",
                       witness=None if two_phase else {"positions(merge, includes, bump, links)": [i_merge, i_inc, i_bump, i_link]}))
@@ -112,10 +117,11 @@ def structure_items(repo):
                       detail="file_init is a static method: a worker receives the path and copies of the settings, never the server",
                       witness=None if ok else {"decorators": decs, "parameters": args}))
     fr = repo.func(f"{LS}.get_all_references")
-    rs = ast.unparse(fr.node)
-    ok = "for _ in range(2):" in rs and "if len(override_cache) == n_linked:\n            break" in rs
+    rf_ = shape.of(repo, f"{LS}.get_all_references")
+    ok = any(isinstance(n, ast.For) and ast.unparse(n.iter) == "range(2)" and shape.has(n, "if len(override_cache) == n_linked:\n    break")
+             for n in ast.walk(rf_))
     items.append(Item("C15/LangServer.get_all_references/ensures.linked_objects_fixed_point", "proved" if ok else "refuted",
-                      "structural", 0.0, where=fr.where(), mode="table", func=fr.qualname,
+                      "structural", 0.0, where=fr.where(), mode="table", func=fr.qualname, shape=True,
                       detail="the scan is repeated when it discovered objects linked to the request, so that the answer does not "
                              "depend on the order of the files"))
     return items
